@@ -4,6 +4,7 @@ arbitrary arguments, and lifted to all reachable states.
 Core Lean only.
 -/
 import KcpVerif.Lemmas.KcpOps
+import KcpVerif.Lemmas.KcpFrames
 import KcpVerif.Lemmas.KcpWindowRcv
 import KcpVerif.Lemmas.KcpWindowSnd
 
@@ -49,16 +50,19 @@ theorem recv_inv (k : Kcp) (n : Nat) (h : Inv k) : Inv (recv k n).k := by
 
 /-! ### send side -/
 
+/-- `shrink_buf` (popping the acknowledged heads, re-establishing `snd_una`) keeps the invariant -/
+theorem shrinkBuf_inv (k : Kcp) (h : Inv k) : Inv (shrinkBuf k) := by
+  obtain ⟨b, u, e⟩ := shrinkBuf_shape k
+  refine ⟨?_, ?_, h.snd.shrink⟩
+  · rw [e]; exact h.win
+  · rw [e]; exact h.rq
+
 theorem shrinkUna_inv (k : Kcp) (una : U32) (h : Inv k) : Inv (shrinkBuf (parseUna k una).1) := by
   have hs := h.snd.una una
+  obtain ⟨b, u, e⟩ := shrinkUna_shape k una
   refine ⟨?_, ?_, ?_⟩
-  · have : (shrinkBuf (parseUna k una).1).rcv_nxt = k.rcv_nxt ∧ (shrinkBuf (parseUna k una).1).rcv_wnd = k.rcv_wnd ∧
-        (shrinkBuf (parseUna k una).1).rcv_buf = k.rcv_buf := by
-      unfold shrinkBuf parseUna; split <;> exact ⟨rfl, rfl, rfl⟩
-    rw [this.1, this.2.1, this.2.2]; exact h.win
-  · have : (shrinkBuf (parseUna k una).1).rcv_queue = k.rcv_queue ∧ (shrinkBuf (parseUna k una).1).rcv_wnd = k.rcv_wnd := by
-      unfold shrinkBuf parseUna; split <;> exact ⟨rfl, rfl⟩
-    rw [this.1, this.2]; exact h.rq
+  · rw [e]; exact h.win
+  · rw [e]; exact h.rq
   · rw [shrinkUna_nxt, shrinkUna_wnd, shrinkUna_buf]; exact hs
 
 theorem parseAck_inv (k : Kcp) (sn : U32) (h : Inv k) : Inv (parseAck k sn) := by
@@ -106,7 +110,7 @@ theorem inSt1_inv (regular : Bool) (wnd : BitVec 16) (una : U32) (st : InLoop) (
 
 theorem inAck_inv (st : InLoop) (sn ts : U32) (h : Inv st.k) : Inv (inAck st sn ts).k := by
   unfold inAck
-  exact parseFastack_inv _ _ _ (parseAck_inv _ _ h)
+  exact parseFastack_inv _ _ _ (shrinkBuf_inv _ (parseAck_inv _ _ h))
 
 theorem inPush_inv (st : InLoop) (seg : Seg) (h : Inv st.k) : Inv (inPush st seg).k := by
   unfold inPush
